@@ -96,7 +96,7 @@ def solver_flags(solver, workdir):
 
 # --------------------------------------------------------------------------- C text assembly
 
-def lowered_text(ast, roots, fnspecs, cuts=(), line_directives=True, drop_contracts=False, simd_contracts=False, cut_qual=(), call_rename=None):
+def lowered_text(ast, roots, fnspecs, cuts=(), line_directives=True, drop_contracts=False, simd_contracts=False, cut_qual=(), call_rename=None, uncut_qual=()):
     """lower the functions named by qualified name in `roots` plus callee closure.
     fnspecs: cname -> contract dict.  Returns (text, lowerer)."""
     lw = Lowerer(ast, line_directives=line_directives)
@@ -106,6 +106,7 @@ def lowered_text(ast, roots, fnspecs, cuts=(), line_directives=True, drop_contra
     lw.cuts = set(cuts)
     lw.cut_qual = tuple(cut_qual)
     lw.call_rename = call_rename
+    lw.uncut_qual = tuple(uncut_qual)
     for q in roots:
         fs = ast.find_functions(q)
         if not fs:
@@ -263,9 +264,15 @@ def run_job(job, unit, workdir, log=print):
             return res
         specs = {k: expand_spec(v) for k, v in job.get('specs', {}).items()}
         mode = job.get('mode', 'dfcc')
-        text, lw = lowered_text(ast, job['roots'], specs, cuts=job.get('cuts', ()), simd_contracts=bool(job.get('simd_contracts')), cut_qual=job.get('cut_qual', ()))
+        text, lw = lowered_text(ast, job['roots'], specs, cuts=job.get('cuts', ()), simd_contracts=bool(job.get('simd_contracts')), cut_qual=job.get('cut_qual', ()), call_rename=job.get('call_rename'), uncut_qual=job.get('uncut_qual', ()))
         ghosts = job.get('ghosts', [])
         gtext = ''.join('%s %s;\n' % (t, g) for t, g in ghosts)
+        if job.get('prune_specs'):
+            # a shared contract library: clauses for callees this function does not reach are dropped
+            keep = set(lw.fn_info) | {job['fn']}
+            specs = {k: v for k, v in specs.items() if k in keep}
+            job = dict(job, specs={k: v for k, v in job['specs'].items() if k in keep}, replace=[r for r in job.get('replace', ()) if r in keep])
+            res.job = job
         # spec sanity: every spec'd function must exist in the lowered text
         for cn in specs:
             if cn not in lw.fn_info and set(job['specs'][cn].keys()) - {'stub_body'}:
@@ -292,7 +299,7 @@ def run_job(job, unit, workdir, log=print):
             import replay as RP
             raw = job.get('specs', {})
             text, lw = lowered_text(ast, job['roots'], {k: {kk: vv for kk, vv in v.items() if kk == 'ghost_returns'} for k, v in raw.items()},
-                                    cuts=job.get('cuts', ()), drop_contracts=True, cut_qual=job.get('cut_qual', ()))
+                                    cuts=job.get('cuts', ()), drop_contracts=True, cut_qual=job.get('cut_qual', ()), uncut_qual=job.get('uncut_qual', ()))
             fixed = dict(job.get('fixed') or {})
             if job.get('sweep'):
                 fixed[job['sweep'][0]] = 'QX_SWEEP'
